@@ -95,6 +95,19 @@ def tabulate (uuids : List Nat) (keys : List String) (db : DB) : List (Nat × Li
 def dbOfTable (table : List (Nat × List (String × String))) : DB :=
   fun u => (table.find? (·.1 == u)).map fun p => TaskMap.ofList p.2
 
+/-- `applyL` computed on tables (data), re-tabulating after every operation -/
+def applyLTable (uuids : List Nat) (keys : List String) (t : List (Nat × List (String × String)))
+    (ops : List SyncOp) : List (Nat × List (String × String)) :=
+  ops.foldl (fun t o => tabulate uuids keys (apply (dbOfTable t) o)) t
+
+/-- `cs chain k` computed on tables -/
+def csTable (uuids : List Nat) (keys : List String) (chain : List (List SyncOp)) (k : Nat) :
+    List (Nat × List (String × String)) :=
+  (chain.take k).foldl (fun t v => applyLTable uuids keys t v) []
+
+def canonTable (uuids : List Nat) (keys : List String) (t : List (Nat × List (String × String))) : String :=
+  canonDB uuids keys (dbOfTable t)
+
 /-- protocol rendering of an operation (the same token syntax as the `C` lines) -/
 def opToks : SyncOp → String
   | .create u => s!"create {u}"
